@@ -4178,6 +4178,10 @@ EmitModSib:
         }
 
         if (addr_type == Mem::AddrType::kRel) {
+          // Instructions that require a SIB byte (AMX tile loads/stores) cannot use RIP-relative addressing.
+          if (ASMJIT_UNLIKELY(common_info->is_tsib_op()))
+            goto InvalidAddress;
+
           uint32_t kModRel32Size = 5;
           uint64_t virtual_offset = uint64_t(writer.offset_from(_buffer_data)) + imm_size + kModRel32Size;
 
@@ -4268,6 +4272,10 @@ EmitModSib:
     }
     // ==========|> [LABEL|RIP + DISP32]
     else {
+      // Instructions that require a SIB byte (AMX tile loads/stores) cannot use RIP-relative addressing.
+      if (ASMJIT_UNLIKELY(common_info->is_tsib_op()))
+        goto InvalidAddress;
+
       writer.emit8(encode_mod(0, op_reg, 5));
 
       if (is_32bit()) {
